@@ -269,3 +269,20 @@ func scratchDir(parts ...string) string {
 	os.MkdirAll(p, 0o755)
 	return p
 }
+
+// runWithTimeout runs a helper process under a watchdog.
+func runWithTimeout(cmd *exec.Cmd, d time.Duration) error {
+	if err := cmd.Start(); err != nil {
+		return err
+	}
+	done := make(chan error, 1)
+	go func() { done <- cmd.Wait() }()
+	select {
+	case err := <-done:
+		return err
+	case <-time.After(d):
+		cmd.Process.Kill()
+		<-done
+		return fmt.Errorf("watchdog: helper process exceeded %s", d)
+	}
+}
